@@ -18,6 +18,7 @@ from vf import gen as G, model as M, opwork as W, oracle as O, props as P, snaps
 from vf.checks.common import Case, call, exc_text
 
 ID = "C08"
+TECHNIQUE = "runtime monitoring: operand snapshots before/after every call, heap-graph disjointness, in-place mutation probes"
 LEVEL = "exploration"
 RULE = ("operand pairs of the C01 generator forced through every short-cut path (Empty / Whole operands, contained operands "
         "in both directions, far apart, crossing, identical) x {| & - ^ + * ~ -x, ==, !=, in (shape, curve, point), float, "
